@@ -1020,7 +1020,7 @@ def run_exact(ck, hbin, cmpst):
                               script=script[:i + 2], observed=[o], expected=[" ".join(want[i + 1])])
                     ck.log("exact-boundary failure (%s): %s" % (what, o))
                     bad += 1
-                    continue
+                    break   # later lines of this script depend on the queue state
             d = cmpst.line(o, model[i] if i < len(model) else "<missing>", 10.0)
             if d is not None:
                 ck.disagreements += 1
